@@ -145,8 +145,14 @@ func newStoreWith(chain []*vhdr.Header, lo, hi int) *store.Store[*vhdr.Header] {
 	return st
 }
 
+var nSyncers int
+
 func newSyncer(g *scriptGetter, st header.Store[*vhdr.Header], opts ...hsync.Option) (*hsync.Syncer[*vhdr.Header], *nopSub) {
 	sub := &nopSub{}
+	nSyncers++
+	if nSyncers%2 == 0 {
+		opts = append(opts, hsync.WithMetrics()) // every other Syncer runs with its metrics on
+	}
 	s, err := hsync.NewSyncer[*vhdr.Header](g, st, sub, opts...)
 	if err != nil {
 		panic(err)
